@@ -14,6 +14,13 @@ package props
 // the scopes it is not nested in (legal: RFC 7950 5.5 only forbids a name along one ancestor chain)
 // but define something else, and a leaf y naming them. It is written before or after its sibling.
 // Such a set yields two cases, one per leaf, each judged against its own lexical frames.
+//
+// When the leaf under test is an identityref and the set loads, two more cases (CFind tables) record
+// which texts the type ACCEPTS: every identity name of the module set, some qualified by the module,
+// and unknown names are passed to meta.FindIdentity(Type.Base(), text) and node.NewValue(Type, text).
+// Coq runs the model of the search (Typed/FindId.v) and the RFC oracle (derived from every base,
+// decided by walking base statements upwards). Texts naming a base of the type go into a table of
+// their own (known finding k=5). With -explode the tables are emitted one text per case.
 
 import (
 	"fmt"
@@ -23,6 +30,7 @@ import (
 	"strings"
 
 	"github.com/freeconf/yang/meta"
+	"github.com/freeconf/yang/node"
 	"github.com/freeconf/yang/parser"
 	"github.com/freeconf/yang/val"
 
@@ -207,6 +215,10 @@ type c02Scenario struct {
 	iTop     []*c02Typedef
 	mIdents  []c02Ident
 	iIdents  []c02Ident
+	mOrder   []int // order the identities of m / i are written in (an identity may precede its base)
+	iOrder   []int
+	idShape  string   // how the hierarchy of i was grown
+	probes   []string // texts tried against the identityref type (identity names, qualified or not, unknown names)
 	noImport bool
 	leafList bool
 	leafType *c02Stmt
@@ -688,12 +700,35 @@ func (s *c02Scenario) genLeafref() {
 	}, func() string { return "3" })
 }
 
+// Identity hierarchies over the two modules. The hierarchy of i is grown in one of four ways so that
+// every shape an identityref can sit on turns up: a random forest, chains (deep, little branching),
+// bushes (identities derived from one of the first few: siblings that have derivations of their own
+// next to siblings that have none), and a complete binary tree (every identity with two derived
+// identities, three levels deep with 8 identities). m adds identities derived from those of i and
+// from each other, with up to two bases each. The statements are written in a random order one time
+// in three (an identity may be written before its base).
 func (s *c02Scenario) genIdentities() {
-	ni := 2 + s.r.Intn(4)
+	ni := 2 + s.r.Intn(7)
+	s.idShape = gen.Pick(s.r, []string{"forest", "chains", "bushes", "binary"})
+	pickBase := func(k int) int {
+		switch s.idShape {
+		case "chains":
+			if s.r.Chance(3, 4) {
+				return k - 1
+			}
+		case "bushes":
+			if k > 3 {
+				return s.r.Intn(3)
+			}
+		case "binary":
+			return (k - 1) / 2
+		}
+		return s.r.Intn(k)
+	}
 	for k := 0; k < ni; k++ {
 		id := c02Ident{Name: fmt.Sprintf("ib%d", k)}
-		if k > 0 && s.r.Chance(2, 3) {
-			id.Bases = append(id.Bases, fmt.Sprintf("ib%d", s.r.Intn(k)))
+		if k > 0 && (s.idShape == "binary" || s.r.Chance(3, 4)) {
+			id.Bases = append(id.Bases, fmt.Sprintf("ib%d", pickBase(k)))
 			if k > 1 && s.r.Chance(1, 4) {
 				o := fmt.Sprintf("ib%d", s.r.Intn(k))
 				if o != id.Bases[0] {
@@ -703,7 +738,7 @@ func (s *c02Scenario) genIdentities() {
 		}
 		s.iIdents = append(s.iIdents, id)
 	}
-	nm := 1 + s.r.Intn(4)
+	nm := 1 + s.r.Intn(5)
 	for k := 0; k < nm; k++ {
 		id := c02Ident{Name: fmt.Sprintf("mb%d", k)}
 		nb := s.r.Intn(3)
@@ -725,6 +760,37 @@ func (s *c02Scenario) genIdentities() {
 			}
 		}
 		s.mIdents = append(s.mIdents, id)
+	}
+	order := func(n int) []int {
+		o := make([]int, n)
+		for i := range o {
+			o[i] = i
+		}
+		if s.r.Chance(1, 3) {
+			for i := n - 1; i > 0; i-- {
+				j := s.r.Intn(i + 1)
+				o[i], o[j] = o[j], o[i]
+			}
+		}
+		return o
+	}
+	s.iOrder, s.mOrder = order(ni), order(nm)
+	// every identity of the module set is tried as a value, some also qualified by their module
+	for _, id := range s.iIdents {
+		s.probes = append(s.probes, id.Name)
+		if s.r.Chance(1, 3) {
+			s.probes = append(s.probes, "i:"+id.Name)
+		}
+	}
+	for _, id := range s.mIdents {
+		s.probes = append(s.probes, id.Name)
+		if s.r.Chance(1, 3) {
+			s.probes = append(s.probes, "m:"+id.Name)
+		}
+	}
+	s.probes = append(s.probes, "nosuch")
+	if s.r.Chance(1, 2) {
+		s.probes = append(s.probes, "i:nosuch")
 	}
 }
 
@@ -920,9 +986,10 @@ func (s *c02Scenario) isFreshTwinName(name string) bool {
 
 // ---- rendering ------------------------------------------------------------------------------------
 
-func c02RenderIdents(ids []c02Ident, ind string) string {
+func c02RenderIdents(ids []c02Ident, order []int, ind string) string {
 	var b strings.Builder
-	for _, id := range ids {
+	for _, k := range order {
+		id := ids[k]
 		if len(id.Bases) == 0 {
 			fmt.Fprintf(&b, "%sidentity %s;\n", ind, id.Name)
 			continue
@@ -1013,11 +1080,11 @@ func (s *c02Scenario) files() map[string]string {
 		m.WriteString("  include s;\n")
 	}
 	m.WriteString("  revision 2020-01-01;\n")
-	m.WriteString(c02RenderIdents(s.mIdents, "  "))
+	m.WriteString(c02RenderIdents(s.mIdents, s.mOrder, "  "))
 	m.WriteString(c02RenderTds(s.mTop, "  "))
 	m.WriteString(c02RenderTarget("top", s.tgtTop, s.tgtTopList, "  "))
 	i.WriteString("module i {\n  namespace \"urn:i\";\n  prefix i;\n  revision 2020-01-01;\n")
-	i.WriteString(c02RenderIdents(s.iIdents, "  "))
+	i.WriteString(c02RenderIdents(s.iIdents, s.iOrder, "  "))
 	i.WriteString(c02RenderTds(s.iTop, "  "))
 	grp := func(w *strings.Builder) {
 		w.WriteString("  grouping g {\n")
@@ -1323,6 +1390,107 @@ func c02ObserveLeaf(m *meta.Module, rel string, n int) (term string, desc interf
 	return emit.App("OLoaded", emit.List(terms)), leaves, "loaded"
 }
 
+// ---- which identities an identityref accepts -----------------------------------------------------------
+
+type c02ProbeObs struct {
+	Text  string
+	Found string `json:",omitempty"` // identity meta.FindIdentity(Type.Base(), Text) returned
+	Value string `json:",omitempty"` // label of node.NewValue(Type, Text)
+	Err   string `json:",omitempty"`
+	Panic string `json:",omitempty"`
+}
+
+func c02ProbeOne(t *meta.Type, text string) (term string, d c02ProbeObs) {
+	d.Text = text
+	defer func() {
+		if r := recover(); r != nil {
+			term, d.Panic = emit.Pair(emit.Str(text), "PPanic"), fmt.Sprint(r)
+		}
+	}()
+	found := "None"
+	if id := meta.FindIdentity(t.Base(), text); id != nil {
+		found = emit.Some(c02Iid(id))
+		d.Found = fmt.Sprintf("%d:%s", c02ModIdx(id), id.Ident())
+	}
+	value := "None"
+	v, err := node.NewValue(t, text)
+	if err != nil {
+		d.Err = err.Error()
+	} else {
+		label := fmt.Sprintf("?%T", v)
+		switch x := v.(type) {
+		case val.IdentRef:
+			label = x.Label
+		case val.IdentRefList:
+			if len(x) == 1 {
+				label = x[0].Label
+			}
+		}
+		d.Value = label
+		value = emit.Some(emit.Str(label))
+	}
+	return emit.Pair(emit.Str(text), emit.App("PObs", found, value)), d
+}
+
+// The texts of the scenario tried against the identityref type of the leaf under its use number
+// `use`, as two tables: the texts that name one of the type's bases, and all the others.
+func (s *c02Scenario) addFindCases(ctx *core.Ctx, m *meta.Module, use int, files map[string]string) {
+	where := fmt.Sprintf("u%d/a/b/x", use)
+	l, ok := meta.Find(m, where).(meta.Leafable)
+	if !ok || l.Type().Format().Single() != val.FmtIdentityRef {
+		return
+	}
+	t := l.Type()
+	isBase := func(text string) bool {
+		local := text[strings.IndexByte(text, ':')+1:]
+		for _, b := range t.Base() {
+			if b.Ident() == local {
+				return true
+			}
+		}
+		return false
+	}
+	var tables [2][]string
+	var descs [2][]c02ProbeObs
+	for _, text := range s.probes {
+		k := 0
+		if isBase(text) {
+			k = 1
+		}
+		term, d := c02ProbeOne(t, text)
+		tables[k] = append(tables[k], term)
+		descs[k] = append(descs[k], d)
+	}
+	for k := range tables {
+		if len(tables[k]) == 0 {
+			continue
+		}
+		what := "texts that do not name a base"
+		if k == 1 {
+			what = "texts naming a base of the type"
+		}
+		if ctx.Explode == ctx.N() {
+			for i := range tables[k] {
+				ctx.Add(emit.App("CFind", s.envTerm(), s.leafTerm(), emit.List(tables[k][i:i+1])),
+					map[string]interface{}{"kind": "identityref value", "leaf": where, "files": files, "observed": descs[k][i]}, true)
+			}
+			continue
+		}
+		ctx.Add(emit.App("CFind", s.envTerm(), s.leafTerm(), emit.List(tables[k])),
+			map[string]interface{}{"kind": "table", "what": "identityref values: " + what, "leaf": where, "files": files,
+				"hierarchy": s.idShape, "observed": descs[k]}, true)
+		ctx.Count("identityref values: " + what)
+		ctx.Count(fmt.Sprintf("identityref values: hierarchy=%s", s.idShape))
+		for _, d := range descs[k] {
+			if d.Value != "" {
+				ctx.Count("identityref values: text accepted")
+			} else {
+				ctx.Count("identityref values: text rejected")
+			}
+		}
+	}
+}
+
 // ---- driver -----------------------------------------------------------------------------------------
 
 func c02Gen(r *gen.Rng, forceKind string) *c02Scenario {
@@ -1405,8 +1573,8 @@ func c02Gen(r *gen.Rng, forceKind string) *c02Scenario {
 }
 
 func C02(ctx *core.Ctx) error {
-	ctx.Imports = "Typed.Model Typed.Spec Check.C02Check"
-	ctx.Rule = "a case is non-trivial when the leaf's type names at least one typedef, or is a union, leafref, identityref, enumeration or bits, or the enclosing grouping is used more than once (the leaf of a sibling scope always names a typedef)"
+	ctx.Imports = "Typed.Model Typed.Spec Typed.FindId Check.C02Check"
+	ctx.Rule = "a case is non-trivial when the leaf's type names at least one typedef, or is a union, leafref, identityref, enumeration or bits, or the enclosing grouping is used more than once (the leaf of a sibling scope always names a typedef); every loaded identityref leaf adds two table cases (always non-trivial): each identity name of the module set, some qualified by the module, and unknown names, tried through meta.FindIdentity and node.NewValue, split into texts naming a base of the type and the rest"
 	c02Hist = ctx.Count
 	defer func() { c02Hist = nil }()
 	r := gen.New(ctx.Seed)
@@ -1430,6 +1598,9 @@ func C02(ctx *core.Ctx) error {
 		_, builtin := val.TypeAsFormat(s.leafType.Ident)
 		nontrivial := !builtin || uses > 1 || s.kind != "numeric" && s.kind != "string" && s.kind != "plain" && s.kind != "decimal64"
 		ctx.Add(term, desc, nontrivial)
+		if m != nil && s.kind == "identityref" {
+			s.addFindCases(ctx, m, 1+k%uses, files)
+		}
 		ctx.Count("kind=" + s.kind)
 		ctx.Count("outcome=" + class)
 		ctx.Count(fmt.Sprintf("uses=%d", uses))
